@@ -45,8 +45,12 @@ Post(p) ==
                               /\ \A i \in 1..Len(p.queue) : queue'[i].reuse = p.queue[i][1] /\ queue'[i].host = p.queue[i][2]
     /\ Has(p, "epoch")     => epoch' = p.epoch
     /\ Has(p, "lastConn")  => lastConn' = p.lastConn
-    \* NoHostAvailable.errors, observed in the state in which it was raised
-    /\ (Has(p, "nhaErrors") /\ final = "unset") => \A h \in Hosts : errs'[h] = p.nhaErrors[h]
+    /\ Has(p, "now")       => now' = p.now
+    /\ Has(p, "due")       => due' = p.due
+    \* NoHostAvailable.errors, once the loop thread is through: every host it had to list, with the class it had
+    \* then or has now (later answers may overwrite entries of the live map)
+    /\ (Has(p, "nhaErrors") /\ pend'.host = 0) =>
+           \A h \in Hosts : nhaCls'[h] # "none" => p.nhaErrors[h] \in {nhaCls'[h], errs'[h]}
 
 TraceInit ==
     /\ tid \in 1..NTraces
@@ -56,7 +60,9 @@ TraceInit ==
     /\ \A h \in Hosts : Tr[1].pool[h] \in PoolConds \cup {"healthy"}
     /\ Tr[1].idem \in IdemChoices /\ Tr[1].target \in TargetChoices /\ Tr[1].spec \in SpecChoices
     /\ Tr[1].ids \in IdChoices
-    /\ InitWith([h \in Hosts |-> Tr[1].pool[h]], Tr[1].idem, Tr[1].target, Tr[1].spec, Tr[1].ids)
+    /\ (100 * Tr[1].budget + Tr[1].delay) \in TimeChoices
+    /\ InitWith([h \in Hosts |-> Tr[1].pool[h]], Tr[1].idem, Tr[1].target, Tr[1].spec, Tr[1].ids,
+                <<Tr[1].budget, Tr[1].delay>>)
 
 TraceNext ==
     /\ l <= Len(Tr)
@@ -66,6 +72,7 @@ TraceNext ==
        /\ \/ e.e = "Start"         /\ Start
           \/ e.e = "AnsOk"         /\ e.k \in OkKinds /\ AnsOk(e.a, e.k)
           \/ e.e = "AnsErr"        /\ e.k \in ErrKinds /\ <<e.d, e.c>> \in DecSet /\ AnsErr(e.a, e.k, e.d, e.c)
+          \/ e.e = "StoreErr"      /\ StoreErr
           \/ e.e = "AnsFatal"      /\ e.k \in FatalKinds /\ AnsFatal(e.a, e.k)
           \/ e.e = "SpecFire"      /\ SpecFire
           \/ e.e = "TimeoutFire"   /\ TimeoutFire
